@@ -39,7 +39,7 @@ ASSUMPTIONS = [
 PROBES = ["nonempty_tables", "hashseed_varied", "dirent_varied", "heap_varied", "ws_sibling", "ws_otherfs", "ws_relative", "ws_symlink",
           "cwd_varied", "pyopt_varied", "ws_symlink_inner", "ws_named_externs", "ws_named_src", "ws_named_default", "ws_named_glob", "ws_symlink_sub", "history_other_settings",
           "history_same_project", "history_other_project", "history_crashed_run", "multi_file_project", "corpus_project",
-          "generated_project", "sub_run", "sub_semantic", "taint_phase_ran"]
+          "generated_project", "sub_run", "sub_semantic", "taint_phase_ran", "baseline_completed", "baseline_ended_early"]
 # the same check again, smaller, in interpreters started with assertions stripped (python -O / PYTHONOPTIMIZE=1)
 ENV_VARIANTS = [{"name": "python-O", "env": {"PYTHONOPTIMIZE": "1"}, "runs": {'quick': 5, 'thorough': 60}}]
 TIERS = {
@@ -54,7 +54,15 @@ CORPORA = [("dataflows/python", ".py", "python"), ("dataflows/javascript", ".js"
            ("dataflows/c", ".c", "c"), ("lang_parser/python", ".py", "python"), ("lang_parser/javascript", ".js", "javascript"),
            ("lang_parser/java", ".java", "java"), ("lang_parser/go", ".go", "go"), ("lang_parser/c", ".c", "c"),
            ("lang_parser/php", ".php", "php"), ("control_flows", ".py", "python"), ("state_flows", ".py", "python"),
-           ("import/python", ".py", "python"), ("import/js", ".js", "javascript")]
+           ("import/python", ".py", "python"), ("import/js", ".js", "javascript"),
+           # real-world code (vendored projects of the CVE cases) and the remaining front-ends
+           ("real_cases", ".py", "python"), ("real_cases", ".py", "python"), ("real_cases", ".java", "java"),
+           ("lang_parser/ruby", ".rb", "ruby"), ("lang_parser/llvm", ".ll", "llvm"), ("lang_parser/typescript", ".ts", "typescript"),
+           ("lang_parser/c_sharp", ".cs", "csharp"), ("lang_parser/smali", ".smali", "smali"), ("motivativing_examples", ".py", "python"),
+           ("apply_summary_tests", ".py", "python"), ("import/php", ".php", "php"), ("import/java", ".java", "java")]
+if os.environ.get("VERIF_C14_ONLY"):
+    # exploration aid (never set by the registered commands): restrict the corpus population to matching directories
+    CORPORA = [c for c in CORPORA if os.environ["VERIF_C14_ONLY"] in c[0]] or CORPORA
 
 _settings = None
 _base = None
@@ -95,6 +103,8 @@ def _corpus_files(sub, ext):
 
 def gen_knobs(rng, tier):
     source = rng.choice(["generated", "generated", "corpus"])
+    if os.environ.get("VERIF_C14_ONLY"):
+        source = "corpus"
     return {
         "population": source,
         "sub": rng.choice(["run", "run", "semantic", "lang"]),
@@ -354,6 +364,7 @@ def execute(trace):
                 tables = [f for f, d in rec["files"].items() if d[3] > 0 and f.split(os.sep)[0] not in ("src", "externs")]
                 if tables:
                     hit("nonempty_tables")
+                hit("baseline_completed" if rec["status"] == "ok" else "baseline_ended_early")
                 if any(f.startswith("taint") for f in rec["files"]) or "taint" in rec.get("stdio_tail", "").lower():
                     hit("taint_phase_ran")
                 trans.add(h64(canon_json(sorted((f, d[1]) for f, d in rec["files"].items()))))
